@@ -251,6 +251,7 @@ def run(ctx: Ctx) -> None:
     drv = Driver()
     try:
         pipeline.tie_full(ctx, drv, 2000 if quick else 50000, ref=True, render=True)
+        pipeline.tie_full(ctx, drv, 1500 if quick else 40000, table=True)     # all eleven block rules: the table rule in the main chain and as a terminator (driver `fullparset`)
     finally:
         drv.close()
     ctx.partial += [
